@@ -41,6 +41,20 @@
 namespace {
 
 // ------------------------------------------------------------------------------ scenario
+// the way a compiler spells a header it found through -I. , -Idir/.. or a doubled slash: same file, other spelling (chosen by
+// a hash of the name so that a scenario is reproducible)
+static std::string Respell(const std::string& p) {
+  unsigned h = 2166136261u;
+  for (unsigned char c : p) h = (h ^ c) * 16777619u;
+  switch (h % 5) {
+    case 0: return "./" + p;
+    case 1: { size_t i = p.find('/'); return i == std::string::npos ? "./" + p : p.substr(0, i) + "//" + p.substr(i + 1); }
+    case 2: return "zz/../" + p;
+    case 3: { size_t i = p.rfind('/'); return i == std::string::npos ? ".//" + p : p.substr(0, i) + "/./" + p.substr(i + 1); }
+    default: return p;
+  }
+}
+
 // a file name as GCC/Clang spell it in a depfile: space -> backslash space, '#' -> backslash '#', '$' -> '$$'
 // (identity for the plain names most scenarios use; the names generated never end in a backslash)
 static std::string MkEsc(const std::string& p) {
@@ -56,7 +70,7 @@ static std::string MkEsc(const std::string& p) {
 struct Stmt {
   std::string out0, kind = "cmd", deps = "none", depfile, rsp, says, primary;
   std::vector<std::string> outs, reads;
-  bool follow = true, restat = false, early = false, dd = false, nocmd = false;
+  bool follow = true, restat = false, early = false, dd = false, nocmd = false, respell = false;
   std::vector<std::pair<std::string, std::string>> serves;  // (out0 of served stmt, its source)
   std::map<std::string, std::string> regen;                // config content -> manifest text
   std::string regen_from;
@@ -87,6 +101,7 @@ std::map<std::string, Stmt> ParseStmts(const JV& v) {
     s.early = j.boolean("early");
     s.dd = j.boolean("dd");
     s.nocmd = j.boolean("nocmd");
+    s.respell = j.boolean("respell");
     for (auto& sv : j.at("serves").a) s.serves.emplace_back(sv.a[0].s, sv.a[1].s);
     for (auto& rv : j.at("regen").o) s.regen[rv.first] = rv.second.s;
     s.regen_from = j.str("regen_from");
@@ -347,14 +362,14 @@ struct SimRunner : public CommandRunner {
       }
       if (status == 0 && (st.deps == "gcc" || st.deps == "depfile")) {
         std::string d = MkEsc(r.out0) + ":";
-        for (auto& pc : r.read) d += " " + MkEsc(pc.first);
+        for (auto& pc : r.read) d += " " + MkEsc(st.respell ? Respell(pc.first) : pc.first);
         d += "\n";
         if (!disk->Put(st.depfile, d)) { status = 1; output += "sim: cannot write depfile\n"; ev.set("write_failed", st.depfile); }
       }
       if (status == 0 && st.deps == "msvc") {
         std::string inc;
         std::set<std::string> direct(st.reads.begin(), st.reads.end());
-        for (auto& pc : r.read) if (!direct.count(pc.first)) inc += "Note: including file: " + pc.first + "\n";
+        for (auto& pc : r.read) if (!direct.count(pc.first)) inc += "Note: including file: " + (st.respell ? Respell(pc.first) : pc.first) + "\n";
         output = inc + output;
       }
     }
